@@ -430,7 +430,7 @@ impl Check for C05 {
     /// NOP sled of every length x a set of limits; STOP / 0x00 at every address around a limit
     fn fixed_sweep(&self, _tier: Tier, ctx: &mut Ctx) -> Result<(), (Violation, Option<Scn>)> {
         let limits: [Option<u8>; 9] = [None, Some(0), Some(1), Some(2), Some(5), Some(0x7F), Some(0xEF), Some(0xFE), Some(0xFF)];
-        let mut run = |scn: Scn, ctx: &mut Ctx| -> Result<(), (Violation, Option<Scn>)> {
+        let run = |scn: Scn, ctx: &mut Ctx| -> Result<(), (Violation, Option<Scn>)> {
             ctx.cov.evaluations += 1;
             run_monitor(&scn, ctx).map_err(|v| (v, Some(scn)))
         };
